@@ -72,6 +72,7 @@ type Replica struct {
 	App   *saoapp.App
 	home  string
 	Dirty map[string]bool
+	lastHash map[string]uint64
 	// process-lifetime bookkeeping
 	Restarts int
 	// fuel per ABCI call (0 = off)
@@ -81,7 +82,7 @@ type Replica struct {
 
 func NewReplica(name string) *Replica {
 	initEncoding()
-	r := &Replica{Name: name, DB: dbm.NewMemDB(), Dirty: map[string]bool{}}
+	r := &Replica{Name: name, DB: dbm.NewMemDB(), Dirty: map[string]bool{}, lastHash: map[string]uint64{}}
 	home, err := os.MkdirTemp("", "saosim-home-")
 	if err != nil {
 		panic(err)
